@@ -24,6 +24,7 @@ struct Stats
     bool deadline_hit = false;
     std::map<std::string, int> depth_by_schema;
     std::vector<std::string> sample_histories;
+    std::vector<std::string> all_histories;  // "<schema>|<history>" of every distinct state (Cfg::collect_histories)
 };
 
 struct Cfg
@@ -35,6 +36,7 @@ struct Cfg
     long vm_budget = 50000000;
     int items_per_task = 4;
     bool check_restore = true;
+    bool collect_histories = false;
     bool visit_states = false;  // call D::visit once for every distinct state (including the states of the last level)
 };
 
@@ -187,7 +189,11 @@ Stats explore(const Options& o, const Cfg& cfg, Reporter& rep, Agg& total)
                     auto parts = split(l, '\t');
                     if (l[0] == 'S')
                     {
-                        if (p.seen.insert(parts[1]).second) next[tasks[ti].schema_idx].push_back(parts.size() > 2 ? parts[2] : "");
+                        if (p.seen.insert(parts[1]).second)
+                        {
+                            next[tasks[ti].schema_idx].push_back(parts.size() > 2 ? parts[2] : "");
+                            if (cfg.collect_histories) st.all_histories.push_back(schema_name(p.s) + "|" + (parts.size() > 2 ? parts[2] : ""));
+                        }
                     }
                     else
                     {
@@ -196,6 +202,7 @@ Stats explore(const Options& o, const Cfg& cfg, Reporter& rep, Agg& total)
                         {
                             if (healthy) next[tasks[ti].schema_idx].push_back(parts[3]);
                             else ++st.unhealthy;
+                            if (cfg.collect_histories) st.all_histories.push_back(schema_name(p.s) + "|" + parts[3]);
                             if (st.sample_histories.size() < 6 && level >= 2) st.sample_histories.push_back(schema_name(p.s) + "|" + parts[3]);
                         }
                     }
